@@ -23,7 +23,11 @@ META = dict(
          "[13, string blob, string data, uint32 flags] with flags 2/4 exactly for the four sha2 names and 0 "
          "otherwise; a type-14 reply's signature must come back unchanged and every other reply type must "
          "raise. A few real client/server publickey authentications with agent-held keys tie the flag to the "
-         "algorithm named in the USERAUTH_REQUEST on the wire. Holds on the executions produced.",
+         "algorithm named in the USERAUTH_REQUEST on the wire. The connection is also made to die in the middle of "
+         "a reply: for two signature replies per key, every cut point (inside the length word, right after it, "
+         "every body byte) x {EOF, ECONNRESET} x delivery in 1 / byte-sized / random / >= 3 pieces - the call "
+         "must raise and never return a short, zero-padded or fabricated signature; same for the identities "
+         "answer behind get_keys. Holds on the executions produced.",
     note="For certificate identities the request may carry either the listed certificate blob or the plain "
          "public key inside it (paramiko sends the plain key for RSA certificates, which its own tests demand, "
          "and the certificate blob for the other types); both are 'that key's public blob'. Key blobs are "
@@ -147,6 +151,9 @@ class FakeConn:
         self.frag = "all"
         self.closed = False
         self.garbage = 0
+        self.cut = None  # (k, "eof"|"reset"): the NEXT reply is cut after k bytes, then the connection is dead
+        self.dead = None
+        self.pieces = 0  # recv calls that returned data for the current reply
 
     def send(self, data):
         self.inbuf += bytes(data)
@@ -170,11 +177,27 @@ class FakeConn:
             body = bytes([rtype]) + rbody
         else:
             body = b"\x05"
-        self.out += struct.pack(">I", len(body)) + body
+        frame = struct.pack(">I", len(body)) + body
+        self.pieces = 0
+        if self.cut is not None and payload[:1] != b"\x0b" or (self.cut is not None and self.cut_identities):
+            k, mode = self.cut
+            self.cut = None
+            frame = frame[:k]
+            self.dead = mode
+        self.out += frame
+
+    cut_identities = False
 
     def recv(self, n):
         if not self.out:
-            return b""
+            if self.dead == "reset":
+                raise ConnectionResetError(104, "Connection reset by peer")
+            return b""  # EOF (also what a dead-by-"eof" connection answers forever)
+        self.pieces += 1
+        if self.frag == "three" and len(self.out) >= 3:
+            # deliver what is left in at least three pieces
+            data, self.out = self.out[:max(1, min(n, len(self.out) // 3))], self.out[max(1, min(n, len(self.out) // 3)):]
+            return data
         if self.frag == "byte":
             k = 1
         elif self.frag == "random":
@@ -274,6 +297,92 @@ def one_sign(ctx, rng, conn, key, entry, name, data, rtype, sig, frag, use_kw):
 def rdata(rng):
     n = rng.choice([0, 1, 20, 32, 64, rng.randint(0, 300), rng.randint(0, 5000)])
     return rng.randbytes(n)
+
+
+# ---- the agent connection dies in the middle of a reply ---------------------------------------------
+def cut_region(k, total):
+    return "inside the 4-byte length" if k < 4 else "right after the length" if k == 4 else \
+        "inside the body" if k < total else "complete"
+
+
+def midreply_sign(ctx, rng, pool):
+    """For a few replies per key type: every cut point k (1 <= k < frame length) x {EOF, reset} x delivery in
+    one / byte-sized / random / >= 3 pieces. sign_ssh_data must raise; it must never return a 'signature'."""
+    idx = 0
+    for ki, entry in enumerate(pool):
+        for sig_len in (5, 67):
+            sig = rng.randbytes(sig_len)
+            body = s(sig)
+            total = 4 + 1 + len(body)
+            for k in range(1, total):
+                for mode in ("eof", "reset"):
+                    idx += 1
+                    if not ctx.mine(idx):
+                        continue
+                    frag = rng.choice(["all", "byte", "random", "three", "three"])
+                    agent, conn, keys = connect(rng, pool)
+                    conn.frag = frag
+                    conn.script = (14, body)
+                    conn.cut = (k, mode)
+                    name = rng.choice(NAMES)
+                    data = rdata(rng)
+                    wit = dict(key=entry[0], algorithm=name, signature_len=sig_len, frame_len=total, cut_after=k,
+                               then=mode, delivery=frag)
+                    ctx.case(("midreply-sign", ki, sig_len, k, mode, frag),
+                             sample=dict(kind="connection dies mid-reply (sign)", **wit) if idx in (9, 10) else None)
+                    ret = raised = None
+                    try:
+                        ret = keys[ki].sign_ssh_data(data, name)
+                    except Exception as e:
+                        raised = e
+                    ctx.count("midreply_sign_cuts_judged")
+                    ctx.count("midreply_cuts_" + cut_region(k, total).replace(" ", "_").replace("-", "_"))
+                    ctx.count("midreply_cuts_then_" + mode)
+                    if conn.pieces >= 3:
+                        ctx.count("midreply_cuts_delivered_in_3_or_more_pieces")
+                    if raised is None:
+                        kind = "zero-padded" if isinstance(ret, bytes) and ret.rstrip(b"\0") != ret else \
+                            "short" if isinstance(ret, bytes) and len(ret) < sig_len else "fabricated"
+                        ctx.violation("sign_ssh_data returned a %s value although the agent connection died mid-reply "
+                                      "(%s, cut %s)" % (kind, "EOF" if mode == "eof" else "reset", cut_region(k, total)),
+                                      "agent sent %d of %d reply bytes, caller got %r"
+                                      % (k, total, ret if not isinstance(ret, bytes) else ret[:16].hex()), wit)
+                    elif mode == "eof" and not isinstance(raised, SSHException):
+                        ctx.count("midreply_eof_raised_non_SSHException")
+                    elif mode == "eof":
+                        ctx.count("midreply_eof_raised_SSHException")
+
+
+def midreply_identities(ctx, rng, pool):
+    """Same for the identities answer that AgentSSH._connect / get_keys rely on."""
+    few = [pool[0], pool[2], pool[-1]]
+    idents = [(blob, "k%d" % i) for i, (kind, blob, ok) in enumerate(few)]
+    body = b"\x0c" + struct.pack(">I", len(idents)) + b"".join(s(b) + s(c) for b, c in idents)
+    total = 4 + len(body)
+    idx = 0
+    for k in range(1, total):
+        for mode in ("eof", "reset"):
+            idx += 1
+            if not ctx.mine(idx):
+                continue
+            conn = FakeConn(rng, idents)
+            conn.frag = rng.choice(["all", "byte", "random", "three"])
+            conn.cut = (k, mode)
+            conn.cut_identities = True
+            agent = AgentSSH()
+            wit = dict(frame_len=total, cut_after=k, then=mode, delivery=conn.frag)
+            ctx.case(("midreply-identities", k, mode, conn.frag),
+                     sample=dict(kind="connection dies mid-reply (identities)", **wit) if idx == 11 else None)
+            raised = None
+            try:
+                agent._connect(conn)
+            except Exception as e:
+                raised = e
+            ctx.count("midreply_identities_cuts_judged")
+            if raised is None:
+                ctx.violation("AgentSSH listed keys although the agent connection died inside the identities answer "
+                              "(%s, cut %s)" % ("EOF" if mode == "eof" else "reset", cut_region(k, total)),
+                              "%d of %d bytes arrived, get_keys() has %d keys" % (k, total, len(agent.get_keys())), wit)
 
 
 # ---- real authentications with agent-held keys -------------------------------------
@@ -417,7 +526,17 @@ def run(ctx):
                  sample=dict(kind="random", key=pool[ki][0], algorithm=name, reply_type=rtype, data_len=len(data),
                              fragmentation=frag) if i < 1 else None)
         one_sign(ctx, rng, conn, keys[ki], pool[ki], name, data, rtype, sig, frag, use_kw=rng.random() < 0.5)
+    midreply_sign(ctx, rng, pool)
+    midreply_identities(ctx, rng, pool)
     session_sample(ctx, rng)
+    ctx.require("midreply_sign_cuts_judged", 2000)
+    ctx.require("midreply_identities_cuts_judged", 300)
+    ctx.require("midreply_cuts_inside_the_4_byte_length", 120)
+    ctx.require("midreply_cuts_right_after_the_length", 40)
+    ctx.require("midreply_cuts_inside_the_body", 1500)
+    ctx.require("midreply_cuts_then_eof", 900)
+    ctx.require("midreply_cuts_then_reset", 900)
+    ctx.require("midreply_cuts_delivered_in_3_or_more_pieces", 800)
     ctx.require("sign_request_frames_parsed", 10000)
     ctx.require("flags_compared", 10000)
     ctx.require("flags_compared_sha2_names", 2000)
